@@ -59,7 +59,8 @@ class Kani:
 
     def __init__(self, harness, claim, tiers=("quick", "thorough"), expect="pass",
                  mem_gb=4, timeout=600, ptr_checks=False, extra=None, bounds=None,
-                 symbolic=None, functions=None, finding=None, fail_desc=None):
+                 symbolic=None, functions=None, finding=None, fail_desc=None, unwindset=None):
+        self.unwindset = unwindset or []   # [(function regex, source-line regex, bound)] resolved against cbmc --show-loops
         self.harness = harness
         self.claim = claim
         self.tiers = tiers
@@ -263,7 +264,7 @@ def kani_build(src, tdir, logdir):
 
 
 RE_FAILED = re.compile(r'Failed Checks: (.*)\n File: "([^"]*)", line (\d+), in (\S+)')
-RE_CHECK = re.compile(r"^Check \d+: (\S+)\n\t - Status: (\w+)\n\t - Description: \"(.*)\"\n(?:\t - Location: (.*)\n)?", re.M)
+RE_CHECK = re.compile(r"^Check \d+: (.+)\n\t - Status: (\w+)\n\t - Description: \"(.*)\"\n(?:\t - Location: (.*)\n)?", re.M)
 
 
 def parse_kani(txt):
@@ -304,6 +305,41 @@ def parse_kani(txt):
     return r
 
 
+def resolve_unwindset(job, src, tdir):
+    """Per-loop bounds (DESIGN §3.5): loops are identified on the goto binary of the
+    harness (cbmc --show-loops) by function name and by the text of the source line
+    of the loop head in the snapshot, never by a hard-coded loop number."""
+    if not job.unwindset:
+        return []
+    outs = []
+    for root, dirs, files in os.walk(tdir):
+        for f in files:
+            if f.endswith(job.harness + ".out"):
+                outs.append(os.path.join(root, f))
+    if not outs:
+        raise Inconclusive("ENCODING-FAILED: goto binary of %s not found for --show-loops" % job.harness)
+    outs.sort(key=os.path.getmtime)
+    p = subprocess.run(["cbmc", "--show-loops", outs[-1]], capture_output=True, text=True, timeout=300)
+    pairs = []
+    hits = {i: 0 for i in range(len(job.unwindset))}
+    for m in re.finditer(r"Loop (\S+):\n  file (\S+) line (\d+)(?: column \d+)? function (.*)", p.stdout):
+        name, file, line, func = m.group(1), m.group(2), int(m.group(3)), m.group(4)
+        fp = file if os.path.isabs(file) else os.path.join(src, file)
+        try:
+            text = open(fp).read().split("\n")[line - 1]
+        except Exception:
+            text = ""
+        for i, (frx, lrx, k) in enumerate(job.unwindset):
+            if re.search(frx, func) and re.search(lrx, text):
+                pairs.append("%s:%d" % (name, k))
+                hits[i] += 1
+                break
+    missing = [job.unwindset[i][:2] for i, n in hits.items() if n == 0]
+    if missing:
+        raise Inconclusive("ENCODING-FAILED: unwindset patterns matched no loop: %s" % missing)
+    return ["--cbmc-args", "--unwindset", ",".join(pairs)]
+
+
 def run_kani_job(job, src, tdir, logdir, playback=False):
     logf = os.path.join(logdir, job.harness + (".playback" if playback else "") + ".log")
     cmd = ["cargo", "kani", "--lib", "--harness", job.harness] + KANI_BASE
@@ -313,6 +349,10 @@ def run_kani_job(job, src, tdir, logdir, playback=False):
         cmd += ["-Z", "concrete-playback", "--concrete-playback=print"]
     cmd += job.extra
     cmd += ["--target-dir", tdir]
+    try:
+        cmd += resolve_unwindset(job, src, tdir)
+    except Inconclusive as e:
+        return {"harness": job.harness, "status": "INCONCLUSIVE", "reason": str(e), "failed": [], "log": logf, "cmd": " ".join(cmd)}
     rc, wall, timed_out = run_limited(cmd, src, logf, job.timeout * (2 if playback else 1), job.mem_gb * 2 + 4 if playback else job.mem_gb)
     txt = open(logf, errors="replace").read()
     res = parse_kani(txt)
